@@ -36,12 +36,16 @@ def run(ck):
     ck.rule("C18.R11", "with `log`, the record text names every field: the value-set formatter writes each visited field, whatever its name", floor=2)
     ck.rule("C18.R10", "with `log`, enter/exit records come from Span::do_enter/do_exit: Instrumented polls through them for every span, enabled or not (as C17.R3)", floor=1)
     ck.rule("C18.R9", "EnteredSpan::exit exits once: the guard it consumes is left holding Span::none(), so its Drop has nothing to exit or log", floor=2)
+    ck.rule("C18.R14", "LogTracer judges a record against LevelFilter::current(): that maximum covers every live collector (the rebuild keeps every live dispatcher and asks it again, every Dispatch is registered; as C01.R5/R6)", floor=6)
     ck.rule("C18.R6", "LogTracer builder options accumulate: no builder call discards an ignored prefix or the max level", floor=3)
     F = Facts("default")
     ck.configs.append("default")
     from rules import C19
     C19.order_rules(ck, F, "C18.R8")
     r6(ck, F)
+    from rules import C01 as _C01
+    _C01.r5(ck, F, rid="C18.R14")
+    _C01.r6(ck, F, rid="C18.R14")
     r7(ck, F)
     r5(ck, F)
     r1(ck, F)
